@@ -90,7 +90,6 @@ use crate::concurrency::JoinHandle;
 use crate::ActorCell;
 use crate::Message;
 use crate::MessagingErr;
-use crate::ACTIVE_STATES;
 
 #[cfg(test)]
 mod tests;
@@ -120,7 +119,7 @@ where
         let mut timer = crate::concurrency::interval(period);
         // timer tick's immediately the first time
         timer.tick().await;
-        while ACTIVE_STATES.contains(&actor.get_status()) {
+        while actor.get_status() < crate::ActorStatus::Draining {
             timer.tick().await;
             // if we receive an error trying to send, the channel is closed and we should stop trying
             // actor died
@@ -239,7 +238,7 @@ where
             let mut timer = crate::concurrency::interval(period);
             // timer tick's immediately the first time
             timer.tick().await;
-            while ACTIVE_STATES.contains(&self_clone.get_status()) {
+            while self_clone.get_status() < crate::ActorStatus::Draining {
                 timer.tick().await;
                 // if we receive an error trying to send, the channel is closed and we should stop trying
                 // actor died
